@@ -142,18 +142,19 @@ func (g *mgraph) markUncertain() {
 			}
 		}
 	}
-	for _, s := range g.stages {
-		// one uncertain includer makes the shared pipeline (and so every other includer) uncertain
-		if s.inner != nil && len(s.inner.also) > 0 {
-			for _, inc := range s.inner.includers() {
-				if inc.u {
-					s.u = true
+	for changed := true; changed; {
+		changed = false
+		for _, s := range g.stages {
+			// one uncertain includer makes the shared pipeline (and so every other includer) uncertain
+			if !s.u && s.inner != nil && len(s.inner.also) > 0 {
+				for _, inc := range s.inner.includers() {
+					if inc.u {
+						s.u = true
+						changed = true
+					}
 				}
 			}
 		}
-	}
-	for changed := true; changed; {
-		changed = false
 		for _, s := range g.stages {
 			if s.u {
 				continue
